@@ -6,7 +6,7 @@
    get_all_net_names) or by one member net.
    Oracles: pandapower's control_implementation / _evaluate_net / get_controller_order / run functions;
    the run function of a net is the Section-free function argument [run] below: any function. *)
-From Coq Require Import ZArith List Bool.
+From Coq Require Import ZArith List Bool QArith.
 Import ListNotations.
 
 Inductive owner := OMulti | ONet (n : Z).
@@ -40,6 +40,14 @@ Definition init_converged (flags : list bool) : bool := fold_left orb flags fals
    and the correspondence checks membership and monotone order) *)
 Definition level_members (l : Z) (cs : list ctrl) : list ctrl :=
   filter (fun c => c_in_service c && Z.eqb (c_level c) l) cs.
+
+(* the documented conversion laws over Q (the right-hand sides of the *_value theorems of Props.v, which
+   are stated over R): used by the monitor as the expected value of a written cell, independently of
+   the generated formulas *)
+Definition spec_p2g (p s hhv eta : Q) : Q := (p * s * 1000 / (hhv * 3600) * eta)%Q.
+Definition spec_g2p (m s hhv eta : Q) : Q := (m * s * (hhv * 3600 / 1000) * eta)%Q.
+Definition spec_g2p_power_led (p s hhv eta : Q) : Q := (p * s / (hhv * 3600 / 1000 * eta))%Q.
+Definition spec_g2g (m s h1 h2 eta : Q) : Q := (m * s * (h1 / h2) * eta)%Q.
 
 (* ---- correspondence helpers *)
 Fixpoint zlist_eqb (a b : list Z) : bool :=
